@@ -14,9 +14,11 @@ model = {"prog": [[action, ...], ...],   # prog[0] = construct_model body, prog[
          "lst": [[action, ...], ...],    # body of user listener l (performed inside notify)
          "subs": [[et, l], ...],         # subscriptions made in construct_model, in this order
          "stats": [[key, kind, sid], ...],  # kind: counter | tally | persistent, listening to data stream sid
-         "streams": [[name, seed], ...], "stream_mode": "new" | "setseed"}
+         "streams": [[name, seed], ...], "stream_mode": "new" | "setseed",
+         "pre": [[time, prio, h, "early"|"late"], ...]}   # SimEvent objects built before initialize (see build_early)
 action = ["sched", mode, prio, h] | ["cancel", k] | ["fail"] | ["cmd", cmd] | ["obs", sid, v]
        | ["obsd", sid, stream, lo, hi] | ["obsf", sid, stream] | ["fire", et] | ["sub", et, l] | ["unsub", et, l]
+       | ["schedpre", j]               # simulator.schedule_event(pre-built event j), at most once per replication
 mode   = ["now"] | ["rel", d] | ["abs", t] | ["reld", stream, lo, hi, mult]
 Times are integers in quarter time units ("nan" for not-a-number).
 """
